@@ -853,6 +853,13 @@ struct Extractor : public RecursiveASTVisitor<Extractor> {
       emitFunction(FD);
     return true;
   }
+  bool VisitCXXMethodDecl(CXXMethodDecl *MD) {
+    // declaration-only members generated by MAKE_MOCKn (trompeloeil_tag_<name>, trompeloeil_self_<name>)
+    // are only ever named in unevaluated operands; give them a stub so that routing rules can see them
+    if (!MD->isDependentContext() && MD->getIdentifier() && MD->getName().startswith("trompeloeil_"))
+      idOf(MD);
+    return true;
+  }
   bool VisitLambdaExpr(LambdaExpr *LE) {
     if (CXXMethodDecl *MD = LE->getCallOperator())
       if (!MD->isDependentContext() && MD->doesThisDeclarationHaveABody())
@@ -882,6 +889,17 @@ struct Extractor : public RecursiveASTVisitor<Extractor> {
       F["deleted"] = FD->isDeleted();
       F["trivial"] = FD->isTrivial();
       F["pure"] = FD->isPure();
+      F["ret"] = typeStr(FD->getReturnType());
+      {
+        json::Array Ps;
+        for (auto *P : FD->parameters()) {
+          json::Object PO;
+          PO["n"] = P->getNameAsString();
+          PO["t"] = typeStr(P->getType());
+          Ps.push_back(std::move(PO));
+        }
+        F["params"] = std::move(Ps);
+      }
       if (auto *MD = dyn_cast<CXXMethodDecl>(FD)) {
         F["virtual"] = MD->isVirtual();
         F["cls"] = clsIdOf(MD->getParent());
